@@ -425,6 +425,60 @@ example :
     (recv sr3 envW c4 (req 1 4)).1.journal.out.find 5 = c4.journal.out.find 5 := by
   decide +kernel
 
+/-! #### rows that already carry PossDupFlag / OrigSendingTime without being copies
+
+Row 2 was sent by the application with an explicit header field `43=N` (in the middle of its own tags),
+row 3 carries a stale `122` and no `43`.  Both are ordinary `RowOK` rows, so `resend_full` covers them:
+`IsRetransmission` demands `43=Y` under the ORIGINAL number whatever the row had (`prepareReplay` sets 43
+with `replace`), and OrigSendingTime = the row's 122 when it has one, else its SendingTime. -/
+
+def J3n : Rows :=
+  [app 1, row 2 "D" [(11, "o2"), (43, "N"), (58, "x")],
+   row 3 "D" [(11, "o3"), (58, "x"), (122, "20231231-23:59:59.000")]]
+def c3n : Conn := conn 4 J3n
+
+theorem outInv3n : OutInv c3n where
+  sorted := by simp [c3n, conn, J3n, Rows.Sorted, app, row]
+  lt := by
+    intro p hp
+    simp [c3n, conn, J3n, app, row] at hp
+    rcases hp with h|h|h <;> subst h <;> decide
+  rows := by
+    intro p hp
+    simp only [c3n, conn, J3n, List.mem_cons, List.not_mem_nil, or_false] at hp
+    rcases hp with h|h|h <;> subst h <;>
+      exact rowOK_row _ _ _ (by decide) (by decide) (by decide +kernel) (by decide +kernel)
+  stored := by decide
+
+theorem hyp3n (b e : Int) (hb : 0 ≤ b) (he : 0 ≤ e) : Hyp envW c3n (req b e) b e where
+  state := Or.inl rfl
+  sock := rfl
+  lsender := by decide
+  ltarget := by decide
+  lstamp := by decide
+  inv := outInv3n
+  envelope := envelope_req _ _ _ _
+  req := req_req b e hb he
+  fits := by decide
+
+/-- the theorem applies: all three rows are retransmitted in a chain over `[1, 3]` -/
+example : Served (fun _ => true) envW c3n (req 1 0) 1 3 := by
+  have := resend_full (fun _ => true) envW c3n (req 1 0) 1 0 (hyp3n 1 0 (by decide) (by decide))
+  rw [if_pos (by decide)] at this
+  exact this
+
+/-- … each under its own number with 43=Y (replaced IN PLACE for row 2, appended for row 3) and the right
+OrigSendingTime; (type, 34, 43, 122) and the content fields of the copy of row 2 -/
+example :
+    (writes (recv (fun _ => true) envW c3n (req 1 0)).2).map
+      (fun g => (g.mtype, g.get? tMsgSeqNum, g.get? tPossDupFlag, g.get? tOrigSendingTime)) =
+      [("D", some "1", some "Y", some stamp0), ("D", some "2", some "Y", some stamp0),
+       ("D", some "3", some "Y", some "20231231-23:59:59.000")] ∧
+    ((writes (recv (fun _ => true) envW c3n (req 1 0)).2).map appBody)[1]? =
+      some [(11, "o2"), (58, "x")] ∧
+    (recv (fun _ => true) envW c3n (req 1 0)).1.sess.nextOut = 4 := by
+  decide +kernel
+
 end NonVacuity
 
 end AsyncFix.Session.C06
